@@ -41,6 +41,7 @@ THEOREMS = [
     "Aio.C09.never_parked_with_exception_recorded",
     "Aio.C09.never_parked_with_exception_recorded_current",
     "Aio.C09.readline_after_own_refill_error_both_versions",
+    "Aio.C09.request_read_keeps_decoder_cap",
     "Aio.C09.lost_body_counterexample_peer_close",
     "Aio.C09.lost_body_counterexample_chunked_close",
     "Aio.C09.parked_reader_misses_error_counterexample",
@@ -87,6 +88,9 @@ ASSUMPTIONS = [
     "'constant factor of the read-buffer limit' is read as: buffered decoded bytes <= high_water + 2*max(limit, low_water) "
     "where low_water is the larger of the configured limit and the largest read size the consumer asked for, and only "
     "while the consumer has not asked for the whole body at once (read(-1) lifts the cap by design)",
+    "server side, request.read()/post()/text()/json() with a client_max_size: decoded bytes resident in the StreamReader must "
+    "stay within 3 x max(client_max_size, read_bufsize) (high water 2x + one decode step 1x of the raised limit; brotli: plus "
+    "its block overshoot), whatever the compression ratio",
     "'never accumulates more than client_max_size' is read as: read() returns <= client_max_size bytes and holds at most "
     "client_max_size + one readany() result before raising 413 (this is what the code does)",
     "a streaming decoder necessarily delivers the bytes preceding a corruption; 'reported as a payload error instead of "
@@ -636,15 +640,16 @@ class Pipeline:
         self.payload.set_read_chunk_size(n)
         return "-"
 
-    def req_read(self, cms, use_post):
+    def req_read(self, cms, use_post, api=None):
         if self.req is None:
             from aiohttp.web_request import BaseRequest
             from unittest import mock
             self.req = BaseRequest(self.msg, self.payload, mock.Mock(), mock.Mock(), mock.Mock(), self.loop,
                                    client_max_size=cms)
         if self.req_coro is None:
-            self.req_coro = self.req.post() if use_post else self.req.read()
-            self.req_post = use_post
+            api = api or ("post" if use_post else "read")
+            self.req_coro = {"read": self.req.read, "post": self.req.post, "text": self.req.text, "json": self.req.json}[api]()
+            self.req_post = api != "read"       # post()/text()/json() go through read(); the bytes are in _read_bytes
         elif self.req_fut is not None and not self.req_fut.done():
             return "blk"
         try:
@@ -908,6 +913,8 @@ def head_bytes(case, wire_len):
         lines.append(b"Host: a")
         if case.get("post"):
             lines.append(b"Content-Type: application/x-www-form-urlencoded")
+        elif case.get("reqapi") == "json":
+            lines.append(b"Content-Type: application/json")
     if he:
         lines.append(b"Content-Encoding: " + he.encode())
     if case["framing"] == "L":
@@ -1045,7 +1052,7 @@ def _run_case(case, loop, rec, max_ops):
         elif k == "S":
             toks.append(f"S:{op[1]}"); out = p.set_chunk(op[1])
         elif k == "Q":
-            toks.append(f"Q:{op[1]}"); out = p.req_read(op[1], case.get("post", False))
+            toks.append(f"Q:{op[1]}"); out = p.req_read(op[1], case.get("post", False), case.get("reqapi"))
         elif k in ("PR", "PA", "PL"):
             toks.append(f"PR:{op[1]}" if k == "PR" else k)
             cur0 = p.payload._cursor
@@ -1134,7 +1141,7 @@ def _run_case(case, loop, rec, max_ops):
         ks.append(f"K:{hx(i)}:{m}:{'!' if o is None else hx(o)}:{1 if a else 0}:{1 if e else 0}")
     mt = 128 - 2 - (1 if he else 0) - (0 if case["framing"] == "E" else 1)
     if case["side"] == "server":
-        mt = 128 - 4 - (1 if he else 0) - (1 if case.get("post") else 0)
+        mt = 128 - 4 - (1 if he else 0) - (1 if (case.get("post") or case.get("reqapi") == "json") else 0)
     line = (f"run {lax} {case['limit']} {fr} {1 if he else 0} {1 if he == 'deflate' else 0} {1 if he == 'deflate' else 0} {mt} "
             + " ".join(ks + toks))
     pstate = p.payload
@@ -1267,6 +1274,17 @@ def oracle(ctx, case, info):
                 pass    # readline() on a body whose next line is longer than max_size (= high water): LineTooLong is the contract
             else:
                 ctx.violation("C09/valid-body-rejected/" + final[1], c, f"valid complete body reported as {final[1]}")
+    # --- server side: request.read()/post()/text()/json() with a client_max_size must keep the decoder capped and the flow
+    #     control on: decoded bytes resident in the StreamReader stay within high water + one decode step of the RAISED limit
+    #     max(client_max_size, read_bufsize), i.e. 3x -- whatever the compression ratio (413 comes after at most that much)
+    if case["mode"] == "req" and case["cms"] and header_encoding(enc):
+        basev = max(case["cms"], limit)
+        allowed = 3 * basev if enc != "br" else 2 * basev + 2 * brotli_call_max(basev)
+        if info["peak"] > allowed:
+            ctx.violation("C09/memory/request-read-resident-exceeds-client-max-size-bound", c,
+                          f"peak of {info['peak']} decoded bytes resident in the StreamReader during request."
+                          f"{case.get('reqapi') or ('post' if case.get('post') else 'read')}() with client_max_size={case['cms']}, "
+                          f"read_bufsize={limit} (bound 3*max = {3 * basev}; low water after the call: {info['low']})")
     # --- resident bound
     if header_encoding(enc) and info["low"] < MAXSIZE:
         bound = info["high"] + 2 * max(limit, info["low"])
@@ -1542,6 +1560,22 @@ def probe_cases():
             body = compress(enc, text2)
             out.append(dict(pbase, side="client", enc=enc, limit=lim, framing="L", body=hx(body), wire_segs=[hx(body)],
                             ops=[["D"]], pop=["PL"], shape="text+probe-readline"))
+    # (f) server side, request.read()/post()/text()/json() on a compressed bomb much larger than client_max_size: 413, and
+    #     never more than 3 x max(client_max_size, read_bufsize) decoded bytes resident on the way
+    for enc in [e for e in ("gzip", "deflate", "zstd", "br") if e in available_encodings()]:
+        for api, payload in (("read", b"a" * 262144), ("post", b"a=" + b"b" * 262144), ("text", b"t" * 262144),
+                             ("json", b'"' + b"j" * 262144 + b'"')):
+            for cms_, lim in ((8192, 1024), (1024, 4096)):
+                body = compress(enc, payload)
+                out.append(dict(base, side="server", enc=enc, limit=lim, framing="L", body=hx(body), wire_segs=[hx(body)],
+                                mode="req", cms=cms_, post=(api == "post"), reqapi=api, ops=[["D"], ["Q", cms_]],
+                                shape="bomb+probe-request-read"))
+    # and within the limit: the body must come back whole through each API
+    for api, payload in (("read", b"a" * 3000), ("post", b"a=" + b"b" * 3000), ("text", b"t" * 3000), ("json", b'"' + b"j" * 3000 + b'"')):
+        body = compress("gzip", payload)
+        out.append(dict(base, side="server", enc="gzip", limit=1024, framing="C", body=hx(body),
+                        wire_segs=[hx(b"%x\r\n" % len(body) + body + b"\r\n0\r\n\r\n")], mode="req", cms=8192,
+                        post=(api == "post"), reqapi=api, ops=[["D"], ["Q", 8192]], shape="text+probe-request-read"))
     # (b) concatenated members whose decoded sizes make the output budget of one decode step (max(limit, low_water)) run out
     #     exactly at a member boundary: 1024/512/2048 with limit 1024 (whole and 97-byte segments), 1025 x 3 with 97-byte segments
     encs = [e for e in ("deflate", "rawdeflate", "gzip", "zstd") if e in available_encodings()]
